@@ -18,6 +18,7 @@ import (
 	"runtime/debug"
 	"runtime/pprof"
 	"sort"
+	"strconv"
 	"strings"
 	"time"
 
@@ -76,11 +77,24 @@ func child(tier string) {
 	us := units(fams)
 	rts := newRuntimes()
 	done := 0
+	bad := 0
+	var deadline time.Time
+	if v, err := strconv.ParseInt(os.Getenv("C01_DEADLINE_UNIX"), 10, 64); err == nil && v > 0 {
+		deadline = time.Unix(v, 0)
+	}
 	fw.ChildLoop(func(i int) string {
+		// fw.Supervise polls Stop only when it (re)starts a worker, so the worker itself honours the budget, and it
+		// stops collecting once it has seen mismatches in several chunks (the verdict is settled by then).
+		if bad >= 3 || (!deadline.IsZero() && time.Now().After(deadline)) {
+			return `{"k":true}`
+		}
 		var res chunkRes
 		u := us[i]
 		u.fam.Run(rts, u.chunk, nil, &res, false)
 		res.finish()
+		if len(res.Mis) > 0 && !res.allClassified {
+			bad++
+		}
 		done++
 		if done%64 == 0 {
 			// runtimes accumulate per-module bookkeeping; recycle them now and then
@@ -223,13 +237,14 @@ func main() {
 	var progs, calls, hists, nontrivSum int64
 	perFam := map[string]*[4]int64{}
 	reported := map[string]bool{}
+	skipped := 0
 	workers := runtime.NumCPU()
 	if workers > 16 {
 		workers = 16
 	}
 	t0 := time.Now()
 	done := fw.Supervise(fw.SupOpts{N: len(us), Workers: workers, CaseTimeout: 10 * time.Minute, Mode: run.Tier,
-		Env:  []string{"VERIF_TIER=" + run.Tier, "GOGC=1600"},
+		Env:  []string{"VERIF_TIER=" + run.Tier, "GOGC=1600", "C01_DEADLINE_UNIX=" + strconv.FormatInt(run.Deadline.Unix(), 10)},
 		Stop: func() bool { return run.Expired() }},
 		func(i int, out string, crash *fw.Crash) {
 			u := us[i]
@@ -258,6 +273,10 @@ func main() {
 			}
 			if res.Err != "" {
 				fw.Fatalf("%s", res.Err)
+			}
+			if res.Skipped {
+				skipped++
+				return
 			}
 			progs += res.Progs
 			calls += res.Calls
@@ -290,15 +309,21 @@ func main() {
 			for _, m := range res.Mis {
 				if !reported[m.Sig] {
 					reported[m.Sig] = true
-					if !reproduces(m) {
+					// the first few distinct signatures are re-executed in a fresh process through the replay path
+					if len(reported) <= 3 && !reproduces(m) {
 						fw.Fatalf("non-reproducible mismatch (harness error, not a verdict): %s: %s", m.Sig, m.What)
 					}
 				}
 				run.Violation(m.Sig, m.What, m.Replay)
 			}
+
 		})
-	if done < len(us) {
-		run.Capped("budget")
+	if done < len(us) || skipped > 0 {
+		if run.Violations() > 0 {
+			run.Capped("workers-stopped-after-violations")
+		} else {
+			run.Capped("budget")
+		}
 	}
 	bounds := map[string]any{}
 	for _, f := range fams {
@@ -321,7 +346,7 @@ func main() {
 		Rule: "evaluation = one export call executed on both engines and compared; distinct_nontrivial = number of distinct generated functions/histories (64-bit FNV of type+locals+body, or of the history) " +
 			"whose observable outcome differs between at least two of their argument vectors or which change instance state — i.e. programs that actually compute something input- or state-dependent",
 		Samples: samples.List(), Exhaustive: true, Outcomes: om, Bounds: bounds,
-		Extra: map[string]any{"programs": progs, "histories": hists, "chunks_done": done, "chunks_total": len(us), "explore_wall_s": time.Since(t0).Seconds(), "workers": workers},
+		Extra: map[string]any{"programs": progs, "histories": hists, "chunks_done": done - skipped, "chunks_total": len(us), "explore_wall_s": time.Since(t0).Seconds(), "workers": workers},
 	}, []string{
 		"differential oracle: a defect shared by both engines is invisible here (C05 checks numeric instructions against an independent reference)",
 		"NaN results of float arithmetic operators are compared as 'both quiet NaN' (payload and sign are left open by the specification); every other value, including NaN moved by abs/neg/copysign/select/local/load/store/reinterpret of determined inputs, is compared bit for bit",
